@@ -454,7 +454,9 @@ def run_shard(desc, seed, tier):
         refs = ["&" + n for n in ws_names] + ["&#10;", "&#xA;", "&#9;", "&#32;", "&#13;", "&#12;", "&amp;\n", "&lt;\n", "&#10;\n", "&nbsp;\n", "&amp;", "&eacute;\n"] + \
                ["&" + n for n in NAMES[::37]]
         shells = ["<pre>x%sy</pre>", "<pre>%sy</pre>", "<listing>x%sy</listing>", "<textarea>x%sy</textarea>", "<textarea>%sy</textarea>", "<table><tr><td>x%sy</td></tr></table>",
-                  "<pre><b>x</b>%sy</pre>", "<pre>x%s</pre>", "<p>x%sy</p>"]
+                  "<pre><b>x</b>%sy</pre>", "<pre>x%s</pre>", "<p>x%sy</p>",
+                  # text that is foster-parented out of a table (collected as pending table text first), select and caption content
+                  "<table>x%sy</table>", "<table><tr>x%s y</tr></table>", "<table><tbody>x %sy</table>", "<table>x%s</table>", "<select><option>x%sy</select>", "<table><caption>x%sy</caption></table>"]
         for builder in ("etree", "dom"):
             for shell in shells:
                 for ref in refs:
